@@ -61,11 +61,14 @@ def solve(formula, display=True, log=False, params={}):
         coeff = linear[j].data
         nz = len(indices)
         left = sum([coeff[i] * xs[indices[i]] for i in range(nz)])
-        if not isinstance(left, Real):
-            if sense[j] == 1:
-                solver.Add(left == const[j])
-            else:
-                solver.Add(left <= const[j])
+        if isinstance(left, Real):
+            # row without coefficients: keep it, 0 <= const or 0 == const may
+            # be violated
+            left = left + 0 * xs[0]
+        if sense[j] == 1:
+            solver.Add(left == const[j])
+        else:
+            solver.Add(left <= const[j])
 
     if display:
         print('Being solved by OR-Tools...', flush=True)
